@@ -1,0 +1,6 @@
+//go:build verif
+
+package boxes
+
+// VerifC07IntegerAttribute exposes integerAttribute (colspan / rowspan / span reader).
+func VerifC07IntegerAttribute(attr string, minimum int) int { return integerAttribute(attr, minimum) }
